@@ -75,13 +75,17 @@ def pair_row_selectors(n, level):
         yield ["l", [n]]
     for t in itertools.product([0, 1], repeat=n):
         yield ["m", list(t)]
+        if n:
+            yield ["lb", list(t)]
     yield ["m", [1] * (n + 1)]
+    yield ["lb", [1] * (n + 1)]
 
 
 def _medium_cases(lens):
     n = len(lens)
     rows = ["E", ["i", 0], ["i", -1], ["i", 13], ["s", None, None, None], ["s", 2, 11, None], ["s", None, None, -1], ["s", 12, 1, -3], ["s", 1, None, 4],
-            ["l", [13, 0, 6, 6, 15]], ["a", [15, 14, 13]], ["m", [int(i % 3 != 1) for i in range(n)]], ["m", [1] * n]]
+            ["l", [13, 0, 6, 6, 15]], ["a", [15, 14, 13]], ["m", [int(i % 3 != 1) for i in range(n)]], ["m", [1] * n],
+            ["lb", [int(i % 3 != 1) for i in range(n)]]]
     cols = ["E", ["i", 0], ["i", -1], ["i", 1], ["s", None, None, None], ["s", 1, None, None], ["s", None, None, -1], ["s", -2, None, None], ["s", None, 4, 2],
             ["s", 10, 2, -3], ["s", -1, None, -2], ["s", 40, None, -1], ["s", 2, 30, 5]]
     for r in rows:
